@@ -212,6 +212,20 @@ pub fn run(ctx: &mut Ctx, prop: &str) {
             }
         }
     }
+    // white-space blocks: "1" wrapped in (and each of) every character of the blocks around the white-space
+    // and format characters, against a few partners, both ways round (R's table is validated per character)
+    for x in al::ws_block_strings() {
+        if !ctx.mine() {
+            continue;
+        }
+        for y in [json!(1), json!("1"), json!(0), json!(true), json!(null), json!([1]), json!("")] {
+            ctx.edge();
+            for k in ops {
+                ctx.check(&format!("{}:ws-block", k), &op(k, vec![x.clone(), y.clone()]), &null);
+                ctx.check(&format!("{}:ws-block:V", k), &op(k, vec![json!({"var": 1}), json!({"var": 0})]), &json!([x, y]));
+            }
+        }
+    }
     // radix literal families against a few numbers (the conversion runs inside every comparison)
     for x in al::radix_families() {
         if !ctx.mine() {
